@@ -41,7 +41,7 @@ def expectToken : Shape :=
     assigns := [] }
 
 def expectTokenOrQuoted : Shape :=
-  { conds := ["if !strings.HasPrefix(s, \"\\\"\")", "for i < len(s)", "switch s[i]", "case '\"'", "case '\\\\'", "for i < len(s)", "switch ", "case escape", "case b == '\\\\'", "case b == '\"'", "default"]
+  { conds := ["if !strings.HasPrefix(s, \"\\\"\")", "for i < len(s)", "switch s[i]", "case '\"'", "case '\\\\'", "for i < len(s)", "if escape", "if b == '\\\\'", "if b == '\"'"]
     calls := ["strings.HasPrefix(s, \"\\\"\")", "expectToken(s)", "make([]byte, len(s)-1)", "copy(p, s[:i])"]
     returns := ["expectToken(s)", "s[:i], s[i+1:]", "string(p[:j]), s[i+1:]", "\"\", \"\"", "\"\", \"\""]
     assigns := [] }
@@ -95,7 +95,7 @@ def registry_setAuthorization : Shape :=
     assigns := [] }
 
 def registry_setAuthorizationFromChallenge : Shape :=
-  { conds := ["switch ", "case r.wwwAuthenticate.scheme == \"bearer\"", "if err != nil", "case r.basic != nil"]
+  { conds := ["if r.wwwAuthenticate.scheme == \"bearer\"", "if err != nil", "if r.basic != nil"]
     calls := ["ParseScope(r.wwwAuthenticate.params[\"scope\"])", "r.acquireAccessToken(ctx, scope, wantScope.Union(requiredScope))", "wantScope.Union(requiredScope)", "req.Header.Set(\"Authorization\", \"Bearer \"+accessToken)", "req.SetBasicAuth(r.basic.username, r.basic.password)"]
     returns := ["false, false, err", "true, true, nil", "true, false, nil", "false, false, nil"]
     assigns := ["r.wwwAuthenticate = challenge", "scope := ParseScope(r.wwwAuthenticate.params[\"scope\"])"] }
